@@ -153,6 +153,18 @@ def check_initialisation(ctx, rid, T):
         ctx.ob(rid, f'clear:{a}', _loc(m, n), f'lexer instance state self.{a} is reset by clear()', a in stores,
                f'self.{a} (stored in {m.name}) survives clear()/default_initialization(): results depend on earlier configuration/calls')
     d = repo.func(LEXER + '.default_initialization')
+    # the two rule/dictionary lists are private to the instance: every binding is a fresh list (add_keywords appends in place)
+    for m in c.methods.values():
+        for n in own_nodes(m.node):
+            if isinstance(n, ast.Assign) and len(n.targets) == 1 and is_attr(n.targets[0], None, 'self') and n.targets[0].attr in ('_SQL_REGEX', '_keywords'):
+                v = n.value
+                fresh = isinstance(v, (ast.List, ast.ListComp)) or (isinstance(v, ast.Call) and is_name(v.func, 'list')) \
+                    or (isinstance(v, ast.BinOp) and isinstance(v.op, ast.Add)) \
+                    or (isinstance(v, ast.Subscript) and isinstance(v.slice, ast.Slice)) \
+                    or (isinstance(v, ast.Call) and isinstance(v.func, ast.Attribute) and v.func.attr == 'copy')
+                ctx.ob(rid, f'fresh:{m.name}:{n.targets[0].attr}', _loc(m, n), f'{m.name} binds self.{n.targets[0].attr} to a list of its own', fresh,
+                       f'`{src(n)}` shares the object `{src(v)}` with its owner: add_keywords()/set_SQL_REGEX() later modify it in place, so a '
+                       'customisation leaks into the module-level default and survives clear()/default_initialization() and new Lexer instances')
     calls = [m for m, _ in T.kw_calls]
     ok = bool(calls) and calls[0] == 'clear'
     ctx.ob(rid, 'default_initialization:starts-with-clear', _loc(d, d.node), 'default_initialization() starts with self.clear()', ok,
